@@ -12,10 +12,12 @@ CONSTANTS NodeSet,     \* set of integer node vectors
           LatA,        \* integer reciprocal lattice (rows)
           Factors      \* refinement factors checked on every finished path
 
+NodeSetTiny == {<<0, 0, 0>>, <<1, 0, 2>>, <<-1, 1, 1>>}
 NodeSetQuick == {<<0, 0, 0>>, <<1, 0, 0>>, <<0, 1, 1>>, <<1, 2, -1>>}
 NodeSetCube == {<<x, y, z>> : x \in 0..1, y \in 0..1, z \in 0..1}
 NodeSetMid == {<<0, 0, 0>>, <<1, 0, 0>>, <<0, 1, 1>>, <<1, 2, -1>>, <<1, 1, 1>>, <<-1, 0, 2>>}
 InvsDef == {<<1, 1>>, <<3, 2>>, <<5, 7>>}
+InvsTwo == {<<3, 2>>, <<5, 7>>}
 LatOrtho == <<<<1, 0, 0>>, <<0, 2, 0>>, <<0, 0, 3>>>>
 LatSkew == <<<<1, 0, 0>>, <<1, 2, 0>>, <<0, -1, 2>>>>
 
@@ -66,6 +68,9 @@ InvUniform == Done => UniformSegments(nodes, spec, st)
 InvBreaksExact == Done => BreaksExact(nodes, spec, st)
 InvLength == Done => LengthExact(nodes, spec, st)
 InvPathOK == Done => PathOK(st) /\ KlineOK(st)
+(* the nk chosen from dk / length is the nearest integer of distance / dk (plus one) *)
+InvRound == spec.mode \in {"dk", "length"} =>
+               \A k \in 1..Len(nodes) : StartsSegment(nodes, k) => RoundIsNearest(Dist2(nodes[k], nodes[k + 1], spec.A), spec.inv)
 (* C29, path coordinate *)
 InvKline == Done => /\ KlineMonotone(st, LatA) /\ KlineFlatAtBreaks(st, LatA) /\ KlineIsDistance(st, LatA)
                     /\ KlineUniform(nodes, spec, st, LatA)
